@@ -338,7 +338,7 @@ package graphql
 
 //@ func overlappingFieldsCanBeMergedRule.findConflictsWithinSelectionSet
 //@   assigns class:M|, class:E|, class:graphql.ValidationContext, class:graphql.pairSet, class:graphql.fieldsAndFragmentNames, class:graphql.fieldDefPair, class:graphql.conflict
-//@   requires rule != nil && rule.comparedFieldsAndFragmentSet != nil && rule.comparedFieldsAndFragmentSet.data != nil && rule.comparedSet != nil
+//@   requires rule != nil && rule.comparedFieldsAndFragmentSet != nil && rule.comparedFieldsAndFragmentSet.data != nil && rule.comparedSet != nil && rule.cacheMap != nil
 //@   props C02
 //@   nosafety
 //@   at call collectConflictsWithin: assert arg2 == fieldsInfo
@@ -351,7 +351,7 @@ package graphql
 
 //@ func overlappingFieldsCanBeMergedRule.collectConflictsBetweenFieldsAndFragment
 //@   assigns class:M|, class:E|, class:graphql.ValidationContext, class:graphql.pairSet, class:graphql.fieldsAndFragmentNames, class:graphql.fieldDefPair, class:graphql.conflict
-//@   requires rule != nil && rule.comparedFieldsAndFragmentSet != nil && rule.comparedFieldsAndFragmentSet.data != nil && rule.comparedSet != nil
+//@   requires rule != nil && rule.comparedFieldsAndFragmentSet != nil && rule.comparedFieldsAndFragmentSet.data != nil && rule.comparedSet != nil && rule.cacheMap != nil
 //@   props C02 C19
 //@   nosafety
 //@   at call Has: assert arg0 == rule.comparedFieldsAndFragmentSet && arg1 == fieldsInfo && arg2 == fragmentName && arg3 == areMutuallyExclusive
@@ -363,7 +363,7 @@ package graphql
 
 //@ func overlappingFieldsCanBeMergedRule.collectConflictsBetweenFragments
 //@   assigns class:M|, class:E|, class:graphql.ValidationContext, class:graphql.pairSet, class:graphql.fieldsAndFragmentNames, class:graphql.fieldDefPair, class:graphql.conflict
-//@   requires rule != nil && rule.comparedFieldsAndFragmentSet != nil && rule.comparedFieldsAndFragmentSet.data != nil && rule.comparedSet != nil
+//@   requires rule != nil && rule.comparedFieldsAndFragmentSet != nil && rule.comparedFieldsAndFragmentSet.data != nil && rule.comparedSet != nil && rule.cacheMap != nil
 //@   props C02 C19
 //@   nosafety
 //@   at call Has: assert arg0 == rule.comparedSet && arg1 == fragmentName1 && arg2 == fragmentName2 && arg3 == areMutuallyExclusive
@@ -377,7 +377,7 @@ package graphql
 
 //@ func overlappingFieldsCanBeMergedRule.findConflictsBetweenSubSelectionSets
 //@   assigns class:M|, class:E|, class:graphql.ValidationContext, class:graphql.pairSet, class:graphql.fieldsAndFragmentNames, class:graphql.fieldDefPair, class:graphql.conflict
-//@   requires rule != nil && rule.comparedFieldsAndFragmentSet != nil && rule.comparedFieldsAndFragmentSet.data != nil && rule.comparedSet != nil
+//@   requires rule != nil && rule.comparedFieldsAndFragmentSet != nil && rule.comparedFieldsAndFragmentSet.data != nil && rule.comparedSet != nil && rule.cacheMap != nil
 //@   props C02
 //@   nosafety
 //@   at call getFieldsAndFragmentNames#1: assert arg1 == parentType1 && arg2 == selectionSet1
